@@ -314,8 +314,27 @@ impl crate::simnet::Policy for Aside {
     }
 }
 
+/// holds one copy of the sender's FIRST data datagram back for `ms` (the original passes at once):
+/// with 18+ messages on the session the copy arrives more than 16 counters behind the receiver's window
+struct LateFirst {
+    ms: u64,
+    done: bool,
+    inner: Box<dyn crate::simnet::Policy>,
+}
+impl crate::simnet::Policy for LateFirst {
+    fn decide(&mut self, from: usize, to: usize, bytes: &[u8], seq: u64) -> crate::simnet::Verdict {
+        if !self.done && from == 1 && to == 0 {
+            self.done = true;
+            return crate::simnet::Verdict::Delay(self.ms);
+        }
+        self.inner.decide(from, to, bytes, seq)
+    }
+}
+
 /// `sys` cases: two real nodes on the simulated adversarial network. One op:
-///  `flow <seed> <drop pm> <dup pm> <delay pm> <max delay ms> <messages> [<secure 0|1>] [rm=<ms>.<ms>…]`
+///  `flow <seed> <drop pm> <dup pm> <delay pm> <max delay ms> <messages> [<secure 0|1>] [rm=<ms>.<ms>…] [late=<ms>]`
+/// `late=`: the first transmission of message 0 is delayed by `<ms>` (its retransmission gets through, up to 30
+/// messages follow): the delayed copy reaches the receiver behind its window - the unsecured restart rule.
 /// `rm=`: a third real node (node 2) has sessions of its own with the SENDER: at each of the given
 /// times (ms after the flow's start) it opens an unsecured session + exchange to node 1 and closes that
 /// session again with a `CloseSession` status report on the same exchange - node 1 removes a session
@@ -351,7 +370,14 @@ fn run_sys(out: &mut Out, ops: &[String]) {
             .find_map(|t| t.strip_prefix("rm="))
             .map(|l| l.split('.').filter_map(|t| t.parse().ok()).take(12).collect())
             .unwrap_or_default();
-        let adversary = || Box::new(Aside(Box::new(RandomPolicy { rng: Rng::new(w[0]), drop_pm: w[1].min(1000), dup_pm: w[2].min(1000), delay_pm: w[3].min(1000), max_delay_ms: w[4].min(3000) })));
+        let late: Option<u64> = op.split_whitespace().find_map(|t| t.strip_prefix("late=")).and_then(|t| t.parse().ok());
+        let adversary = || -> Box<dyn crate::simnet::Policy> {
+            let rnd: Box<dyn crate::simnet::Policy> = Box::new(RandomPolicy { rng: Rng::new(w[0]), drop_pm: w[1].min(1000), dup_pm: w[2].min(1000), delay_pm: w[3].min(1000), max_delay_ms: w[4].min(3000) });
+            match late {
+                Some(ms) => Box::new(Aside(Box::new(LateFirst { ms: ms.min(20_000), done: false, inner: rnd }))),
+                None => Box::new(Aside(rnd)),
+            }
+        };
         let net = if secure { SimNet::new(3, Box::new(crate::simnet::Perfect)) } else { SimNet::new(3, adversary()) };
         let keys: RefCell<Option<([u8; 16], [u8; 16])>> = RefCell::new(None);
         let on = std::cell::Cell::new(!secure);
@@ -368,7 +394,7 @@ fn run_sys(out: &mut Out, ops: &[String]) {
         let ds = Tap { inner: &ds0, net: &net, node: 0, ev: &events, keys: &keys, on: &on };
         let cs = Tap { inner: &cs0, net: &net, node: 1, ev: &events, keys: &keys, on: &on };
         let pre: RefCell<Option<Exchange>> = RefCell::new(None);
-        let n_msgs = w[5].clamp(1, 6) as u8;
+        let n_msgs = w[5].clamp(1, if late.is_some() { 30 } else { 6 }) as u8;
         let results: RefCell<Vec<String>> = RefCell::new(Vec::new());
         let app: RefCell<Vec<u8>> = RefCell::new(Vec::new());
         let sender = async {
@@ -497,7 +523,7 @@ fn run_sys(out: &mut Out, ops: &[String]) {
             results.borrow_mut().push("hang".into());
         }
         // let delayed copies arrive and be acknowledged
-        let _ = run_sim(&net, nodes.as_mut(), 4_000);
+        let _ = run_sim(&net, nodes.as_mut(), 4_000 + late.unwrap_or(0));
         let _ = now_ms();
         let mut wire = Vec::new();
         for l in net.log() {
@@ -535,6 +561,12 @@ fn run_sys(out: &mut Out, ops: &[String]) {
             out.stat(&format!("sys_res_{}", r), 1);
         }
         out.stat("sys_datagrams", net.log_len() as u64);
+        if late.is_some() {
+            let a = app.borrow();
+            let again = a.iter().enumerate().any(|(k, x)| a[..k].contains(x));
+            out.stat(if secure { "sys_late_copy_secure" } else { "sys_late_copy_unsecured" }, 1);
+            out.stat(if again { "sys_late_copy_shown_again" } else { "sys_late_copy_rejected" }, 1);
+        }
         out.op(op, &res);
     }
 }
@@ -581,7 +613,14 @@ pub fn gen(a: &Args) -> String {
         } else {
             (drop, String::new())
         };
-        let ops = vec![format!("flow {} {} {} {} {} {} {}{}", cr.below(1 << 32), drop, dup, delay, *cr.pick(&[50u64, 400, 800, 2500]), cr.range(1, 4), (id % 2 == 1) as u8, rm)];
+        // every tenth flow: 14-24 messages on one session (around the 16-wide window) while one copy of the first
+        // is held back: beyond 17 newer counters an unsecured receiver takes it for a restarted peer
+        let ops = if id % 10 == 7 {
+            let (drop, dup, delay) = if cr.chance(1, 2) { (0, 0, 0) } else { (cr.range(0, 150), cr.range(0, 200), cr.range(0, 200)) };
+            vec![format!("flow {} {} {} {} {} {} {} late={}", cr.below(1 << 32), drop, dup, delay, *cr.pick(&[50u64, 400]), cr.range(14, 30), (id % 20 == 17) as u8, cr.range(1_500, 9_000))]
+        } else {
+            vec![format!("flow {} {} {} {} {} {} {}{}", cr.below(1 << 32), drop, dup, delay, *cr.pick(&[50u64, 400, 800, 2500]), cr.range(1, 4), (id % 2 == 1) as u8, rm)]
+        };
         out.case(n_cases + id, "sys");
         run_sys(&mut out, &ops);
     }
